@@ -230,6 +230,9 @@ def _block(block, agg):
         for entry in ("scan", "check-dir", "check-files"):
             for i in range(0, len(contents), 200):
                 bisect_tree(lang, contents[i:i + 200], entry, agg, descs[i:i + 200])
+    elif kind == "descs":
+        for desc in block[1]:
+            _emit_text(agg, desc)
     elif kind == "bytes":
         _, lang, seed, stride = block
         vs = byte_variants(lang, seed, stride)
@@ -297,6 +300,9 @@ def run(ctx: core.Ctx):
         for shape in malformed.DEEP_SHAPES:
             for d in depths:
                 blocks.append(("deep", lang, shape, d))
+        extra = malformed.wild_descs(lang, stride) + malformed.corpus_descs(lang, ctx.pick(2, 8), ctx.pick(4, 1))
+        for i in range(0, len(extra), 400):
+            blocks.append(("descs", extra[i:i + 400]))
         cli_langs = canon.LANGS if not ctx.quick else ["Python", "JavaScript", "C"]
         for content in NAMING_CONTENTS:
             for way in WAYS:
